@@ -323,7 +323,12 @@ class Worker(object):
         private methods to be called.
         '''
 
-        task['description']['function'] = task['description']['method']
+        # `method` is not part of the TaskDescription schema: a verified
+        # description names the method in `function` (which is what
+        # `TaskDescription._verify` demands for TASK_METHOD)
+        descr = task['description']
+
+        descr['function'] = descr.get('method') or descr['function']
 
         return self._dispatch_func(task)
 
